@@ -25,6 +25,11 @@ def one_history(rng, nops, target_kinds=("ds", "ds", "ds", "grp")):
     return ops
 
 
+KNOWN = [dict(id="C02-dense-volume-multi-block", match="appears twice",
+              case={"sb": 2, "ops": [{"op": "mkds", "path": "/d", "dtype": "int32", "dims": [1]}] +
+                    [{"op": "setattr", "path": "/d", "name": hx("a%d" % i), "kind": "[]f64", "val": "01" * 8000} for i in range(9)]})]
+
+
 def cases_for(rng, tier):
     n = 1200 if tier == "quick" else 40000
     cases = [{"sb": rng.choice([0, 2, 3]), "ops": one_history(rng, rng.choice([3, 8, 15, 30, 60, 120, 300]))} for _ in range(n)]
@@ -46,7 +51,7 @@ def cases_for(rng, tier):
 
 
 def run(ctx):
-    return histcheck.run(ctx, cases_for(ctx.rng, ctx.tier), "C02", tags={"attr", "must-fail-accepted"}, unit_modules=["c02unit"],
+    return histcheck.run(ctx, cases_for(ctx.rng, ctx.tier), "C02", tags={"attr", "must-fail-accepted"}, known=KNOWN, unit_modules=["c02unit"],
                          rule_extra="C02 cases: attribute histories of 3..300 calls on a dataset or a group hovering around the 8-attribute "
                                     "compact/dense threshold and the header-full point, same-size and different-size overwrites, deletes of "
                                     "present/absent names, all value kinds; plus all histories of length <= 3 (quick) / 5 (thorough) over 2 names x 3 values.")
